@@ -390,6 +390,19 @@ class Check(PropCheck):
             if e not in seen:
                 seen.add(e)
                 pool.append(e)
+                # twins that differ only in letter case / white space *inside a string literal*, or in a later character:
+                # distinct expressions with distinct results that a sloppy cache key (lower-cased, stripped, truncated) confuses
+                if r < 0.7 and len(pool) < n and rng.random() < 0.35:
+                    twin = None
+                    if '"x"' in e:
+                        twin = e.replace('"x"', rng.choice(['"X"', '" x"']), 1)
+                    elif '= "' in e:
+                        twin = e.replace('= "', '= " ', 1)
+                    elif e[-1].isdigit():
+                        twin = e[:-1] + str((int(e[-1]) + 1) % 10)
+                    if twin and twin not in seen:
+                        seen.add(twin)
+                        pool.append(twin)
         return pool
 
     def rand_valid(self, rng):
